@@ -808,6 +808,15 @@ func c03RunInner(in c03In) CaseOut {
 		body = c03WriteBody(subst(in.Meta), in.Rows, &in.Cols, in.NoBatch)
 	}
 	abs := c03Abstract(body)
+	if in.Route != "pipe" {
+		// every HTTP route bounds the stream's declared lengths against len(body)
+		// (checkIPCStreamFraming) before arrow-go sees it; a refusal there is the
+		// same decode failure as ipc.NewReader refusing the body
+		if _, ferr := vgirpc.VerifCheckIPCStreamFraming(body); ferr != nil {
+			abs = c03Body{K: "garbage"}
+			tags = append(tags, "framing-refused")
+		}
+	}
 	tags = append(tags, "body:"+abs.K)
 	if abs.K == "batch" {
 		tags = append(tags, "cols:"+abs.Cols.K, fmt.Sprintf("rows:%d", min(abs.Rows, 2)))
@@ -1013,7 +1022,7 @@ func c03MutMeta(r *rand.Rand, meta [][2]string, k int) [][2]string {
 			case vgirpc.MetaShmSegmentSize:
 				val = c03Pick(r, []string{"65536", "0", "abc", "-1"})
 			case vgirpc.MetaProtocolVersion:
-				val = c03Pick(r, []string{"2.10.3", "2.10.99", "2.9.0", "3.0.0", "02.10.3", "garbage", ""})
+				val = c03Pick(r, []string{"2.10.3", "2.10.99", "2.9.0", "3.0.0", "02.10.3", "garbage", "", "1..0", "2..", c03GenVersion(r)})
 			case vgirpc.MetaMethod:
 				val = c03Pick(r, append([]string{"nosuch", "__describe__", "__transport_options__", "\xff"}, c03Methods...))
 			case vgirpc.MetaRequestVersion:
@@ -1033,13 +1042,17 @@ func c03MutMeta(r *rand.Rand, meta [][2]string, k int) [][2]string {
 func c03BaseMeta(r *rand.Rand, method string, pv bool) [][2]string {
 	m := StdMeta(method, c03Pick(r, []string{"", "rid"}), c03Pick(r, []string{"", "", "INFO", "bogus"}))
 	if pv && r.Intn(5) != 0 {
-		m = append(m, [2]string{vgirpc.MetaProtocolVersion, c03Pick(r, []string{"2.10.3", "2.10.3", "2.10.0", "2.9.9", "x"})})
+		v := c03Pick(r, []string{"2.10.3", "2.10.3", "2.10.0", "2.9.9", "x"})
+		if r.Intn(2) == 0 {
+			v = c03GenVersion(r)
+		}
+		m = append(m, [2]string{vgirpc.MetaProtocolVersion, v})
 	}
 	return m
 }
 
 func c03GenRequest(r *rand.Rand, route string) c03In {
-	in := c03In{Route: route, PV: r.Intn(4) == 0}
+	in := c03In{Route: route, PV: r.Intn(3) == 0}
 	method := c03Pick(r, append([]string{"nosuch", "__describe__", "__transport_options__"}, append(c03Methods, c03Methods...)...))
 	in.Path = method
 	if route != "pipe" && r.Intn(6) == 0 { // route names another method than the metadata
@@ -1228,8 +1241,87 @@ func c03GenRaw1(r *rand.Rand, route string) c03In {
 	return in
 }
 
-func c03Boundary() []c03In {
+// ---- protocol-version strings --------------------------------------------------
+// checkProtocolVersion parses the client's vgi_rpc.protocol_version OUTSIDE every
+// recover (serveOne, handleUnary, handleStreamInit), so the value itself is an
+// attack surface: empty components, lone dots, missing / extra components,
+// leading zeros, suffixes, whitespace, non-ASCII digits, raw bytes, long runs.
+
+// c03CoreBadVersions go to every gated route x method class; the rest rotate.
+var c03CoreBadVersions = []string{"1..0", "0..0", "12..x", "..", ".", "", "2.10.", "\xff..\xfe"}
+
+var c03MoreBadVersions = []string{"2..3", "...", "2.10", ".10.3", "2..", "..3", "2.10.3.", "2.10..3", "1...0", "2", "2.10.3.4",
+	"2.10.3\n", " 2.10.3", "2.10.3-rc1", "+2.10.3", "2.10.03", "02.10.3", "\xef\xbc\x92.10.3", "2.\xd9\xa1\xd9\xa0.3", "2.10.\x00", "x..y", "-1..0",
+	"2." + strings.Repeat("9", 300) + ".3", strings.Repeat("7", 120) + ".." + strings.Repeat("1", 120), strings.Repeat(".", 64), "2.10." + strings.Repeat("0", 2000)}
+
+// c03GenVersion composes a version-like string from components (some empty).
+func c03GenVersion(r *rand.Rand) string {
+	switch r.Intn(10) {
+	case 0, 1:
+		return c03Pick(r, []string{"2.10.3", "2.10.0", "2.10.77", "2.9.9", "3.0.0"})
+	case 2:
+		return c03Pick(r, c03CoreBadVersions)
+	case 3:
+		return c03Pick(r, c03MoreBadVersions[:len(c03MoreBadVersions)-1])
+	}
+	parts := []string{"", "", "0", "2", "10", "3", "x", "01", "\xef\xbc\x92", "-", " ", "\xff", strings.Repeat("4", 1+r.Intn(40))}
+	n := 1 + r.Intn(5)
+	if r.Intn(2) == 0 {
+		n = 3
+	}
+	var ps []string
+	for i := 0; i < n; i++ {
+		ps = append(ps, c03Pick(r, parts))
+	}
+	return strings.Join(ps, ".")
+}
+
+type c03GatedCall struct{ route, method string }
+
+// every place the gate runs: pipe unary / producer / exchange / dynamic, HTTP unary, HTTP init
+var c03GatedCalls = []c03GatedCall{{"pipe", "u_int"}, {"pipe", "p_only"}, {"pipe", "e_only"}, {"http_unary", "u_int"},
+	{"http_init", "p_only"}, {"http_init", "dyn"}, {"pipe", "dyn"}, {"http_unary", "u_ser"}, {"http_init", "e_only"}, {"http_init", "p_ser"}, {"pipe", "p_ser"}, {"pipe", "u_ser"}}
+
+func c03VersionBoundary() []c03In {
 	var out []c03In
+	mk := func(c c03GatedCall, vers []string, tag string) c03In {
+		meta := StdMeta(c.method, "rid", "")
+		for _, v := range vers {
+			meta = append(meta, [2]string{vgirpc.MetaProtocolVersion, v})
+		}
+		cols := c03Cols{K: "x"}
+		if c.method == "u_ser" || c.method == "p_ser" {
+			cols = c03Cols{K: "p", P: &c03Payload{K: "batch", Rows: 1, Cols: &c03Cols{K: "a"}}}
+		}
+		return c03In{Route: c.route, PV: true, Path: c.method, Meta: meta, Rows: 1, Cols: cols, Follow: c.route == "pipe", Ins: "valid", Tag: tag}
+	}
+	for _, c := range c03GatedCalls[:6] {
+		for _, v := range c03CoreBadVersions {
+			out = append(out, mk(c, []string{v}, "pv-malformed"))
+		}
+	}
+	for i, v := range c03MoreBadVersions {
+		out = append(out, mk(c03GatedCalls[i%len(c03GatedCalls)], []string{v}, "pv-malformed"))
+	}
+	// duplicate keys: ReadRequest's map keeps the LAST value; and a malformed value on a server
+	// that declares no version / on the ungated __describe__ is never parsed
+	for _, c := range c03GatedCalls[:6] {
+		out = append(out, mk(c, []string{"1..0", "2.10.3"}, "pv-duplicate"), mk(c, []string{"2.10.3", "1..0"}, "pv-duplicate"))
+	}
+	for _, c := range c03GatedCalls[:4] {
+		in := mk(c, []string{"1..0"}, "pv-ungated")
+		in.PV = false
+		out = append(out, in)
+	}
+	d := mk(c03GatedCall{"pipe", "__describe__"}, []string{"1..0"}, "pv-ungated")
+	out = append(out, d)
+	d2 := mk(c03GatedCall{"http_unary", "__describe__"}, []string{"0..0"}, "pv-ungated")
+	out = append(out, d2)
+	return out
+}
+
+func c03Boundary() []c03In {
+	out := c03VersionBoundary()
 	std := func(m string) [][2]string { return StdMeta(m, "rid", "") }
 	x := c03Cols{K: "x"}
 	loc := [2]string{vgirpc.MetaLocation, "https://x.invalid/b"}
